@@ -122,6 +122,22 @@ def _first_stmt_value(f: Func, name: str):
     return None
 
 
+def _held_value(f: Func, case, name: str):
+    """expression bound to local `name` on the path `case` (last plain assignment before its first store), locals substituted"""
+    from .. import symsum
+    first_store = case.stores[name][0][2]
+    best = None
+    for n in own_nodes(f.node):
+        if isinstance(n, ast.Assign) and len(n.targets) == 1 and isinstance(n.targets[0], ast.Name) and n.targets[0].id == name \
+                and n.lineno < first_store.lineno:
+            if best is None or n.lineno > best.lineno:
+                best = n
+    if best is None:
+        return None
+    from ..astutil import deep_inline
+    return deep_inline(f, best.value, extra={name: best.value})
+
+
 def _s4(ctx, rep):
     ix = ctx.ix
     # State / Gate: stored target is a deep copy
@@ -130,34 +146,51 @@ def _s4(ctx, rep):
                                (TYPES["gate"], "calc_proj_eq_constraint", "hs", "self.hs"),
                                (TYPES["gate"], "calc_proj_eq_constraint_with_var", "new_var", "var")):
         f = ix.cls(cq).methods[meth]
-        stores = [n for n in own_nodes(f.node) if isinstance(n, ast.Assign) and isinstance(n.targets[0], ast.Subscript)]
-        tnames = set()
-        for s in stores:
-            t = s.targets[0]
-            while isinstance(t, ast.Subscript):
-                t = t.value
-            tnames.add(unparse(t))
-        ok, why = True, ""
-        if tnames != {var}:
-            ok, why = False, "stores go to %s, expected the private copy %s" % (sorted(tnames), var)
+        from .. import symsum
+        cs = symsum.cases(f)
+        con = "private copy in %s.%s" % (cq.split(".")[-1], meth)
+        if cs is None:
+            rep.undecided("S4", f, con, "too many paths")
+            continue
+        COPY = ("copy.deepcopy", "np.copy", "copy.copy")
+        ok, why, undec = True, "", ""
+        n_store_paths = 0
+        for c in symsum.returning(cs):
+            # which local (if any) received subscript stores on this path, and what does it hold?
+            stored = {k: v for k, v in c.stores.items() if v}
+            flag_on = c.has("on_para_eq_constraint", True)
+            if meth.endswith("_with_var") and flag_on:
+                # constraint built into the parametrisation: the projection is the identity
+                if stored or unparse(c.value) != src:
+                    ok, why = False, "with the constraint built into the parametrisation the projection must return its argument unchanged " \
+                                     "(path %r%s)" % (c, ", with stores into %s" % sorted(stored) if stored else "")
+                continue
+            if not stored:
+                if meth.endswith("_with_var") and c.mentions("on_para_eq_constraint"):
+                    ok, why = False, "path %r returns without setting the fixed coordinates" % c
+                continue
+            n_store_paths += 1
+            for nm in stored:
+                # the local must be a private copy of the source on this path: follow the path's own bindings
+                held = _held_value(f, c, nm)
+                if held is None:
+                    undec = "cannot tell what `%s` holds when it is written" % nm
+                elif not (isinstance(held, ast.Call) and (dotted(held.func) or "") in COPY and held.args and unparse(held.args[0]) == src):
+                    if unparse(held) == src or (isinstance(held, ast.Name) and held.id in f.params):
+                        ok, why = False, "the fixed coordinates are written into `%s` = %s, i.e. into the caller's own array" % (nm, unparse(held))
+                    else:
+                        undec = "`%s` holds %s when it is written: not recognisably a copy of %s" % (nm, unparse(held)[:60], src)
+        if ok and not undec and n_store_paths == 0:
+            undec = "no path writes the fixed coordinates into a local copy"
+        if ok and meth.endswith("_with_var") and not any(c.has("on_para_eq_constraint", True) for c in symsum.returning(cs)):
+            ok, why = False, "no path is selected by on_para_eq_constraint: with the constraint built into the parametrisation the variable " \
+                             "vector has no fixed coordinate, so the projection must return its argument unchanged there"
+        if not ok:
+            rep.violation("S4", f, con, why, node=f.node)
+        elif undec:
+            rep.undecided("S4", f, con, undec)
         else:
-            # every definition of `var` that reaches a store is a deep copy of the source
-            defs = [n for n in own_nodes(f.node) if isinstance(n, ast.Assign) and unparse(n.targets[0]) == var]
-            copies = [d for d in defs if isinstance(d.value, ast.Call) and (dotted(d.value.func) or "") in ("copy.deepcopy", "np.copy", "copy.copy")
-                      and d.value.args and unparse(d.value.args[0]) == src]
-            cfg = ctx.cfg(f)
-            for s in stores:
-                sn = cfg.node_of(s)
-                if not any(cfg.dominates(cfg.node_of(c), sn) for c in copies):
-                    ok, why = False, "the store `%s` is not dominated by `%s = copy.deepcopy(%s)`" % (unparse(s), var, src)
-            # under the parametrised flag the variable-level projection returns its argument unchanged
-            if meth.endswith("_with_var"):
-                ifs = [n for n in own_nodes(f.node) if isinstance(n, ast.If) and unparse(n.test) == "on_para_eq_constraint"]
-                good = len(ifs) == 1 and any(isinstance(x, ast.Assign) and unparse(x.targets[0]) == var and unparse(x.value) == "var" for x in ifs[0].body) \
-                    and not any(isinstance(x, ast.Assign) and isinstance(x.targets[0], ast.Subscript) for b in ifs[0].body for x in ast.walk(b))
-                if not good:
-                    ok, why = False, "with the constraint built into the parametrisation the projection must be the identity"
-        rep.check(ok, "S4", f, "private copy in %s.%s" % (cq.split(".")[-1], meth), "constant stores go to a deep copy of the input", why, node=f.node)
+            rep.holds("S4", f, con, "constant stores go to a deep copy of the input on all %d storing path(s)" % n_store_paths, node=f.node)
 
     # Povm: linear form vec - mean + c, mean = sum(vecs)/m
     for meth, vecs_src in (("calc_proj_eq_constraint", "self.vecs"), ("calc_proj_eq_constraint_with_var", "vecs")):
